@@ -32,6 +32,8 @@ func genCase(t *rapid.T) Case {
 	so := gen.SchemaOpts{Filters: true, MinProps: 1}
 	ho := gen.HistoryOpts{MaxSteps: 10, MaxBatch: 8, PoolSize: rapid.SampledFrom([]int{8, 16}).Draw(t, "pool"),
 		AllowRejected: rapid.IntRange(0, 3).Draw(t, "allowRejected") == 0, Reopen: true, Evict: true, ExtraFields: false}
+	// the same id more than once in one update batch (merged in order; the indices must see the net change)
+	ho.AllowDupUpdate = rapid.IntRange(0, 3).Draw(t, "dupUpdate") == 0
 	nq := 6
 	if vt.Thorough() {
 		ho.MaxSteps, ho.MaxBatch, nq = 25, 20, 10
